@@ -105,6 +105,7 @@ class Runner:
         from .symapi import spec_funcval
         eng.loop_invariants = {k: spec_funcval(eng, f).py for k, f in c.invariants.items()}
         eng.harness_mi = hmods[c.module]
+        eng.unfold_depth = getattr(c, "unfold_depth", 1)
         from . import symapi
         symapi.install(eng, c, self)
         return eng
